@@ -235,7 +235,7 @@ CHECKS = {
         "container (ebml-go) are third-party: that part of C20 (complete frames, no duplicates/reordering, nothing missing, well-formed file, flush on stop) is "
         "correspondence-only — exploration level, by file read-back with ebml-go",
    note=TB + "PARTIAL by design: proof for galene's glue, exploration for the library part. Builder pops and the wall clock are observed inputs of the (transducer) model; the "
-        "4 s lastKf timer and the 500 ms request limit are neutralised by the harness. Known findings: sender-report-moves-origin, savedkf-overtaken, audio-before-new-file-origin (galene), four "
+        "4 s lastKf timer and the 500 ms request limit are neutralised by the harness. Known findings: sender-report-moves-origin, savedkf-overtaken, audio-before-new-file-origin (galene; old-sample-taken-for-wrap was repaired, fix 608cf45), four "
         "samplebuilder/pion defects keyed by history shape (cannot be repaired here: the dependency cannot be re-fetched).",
    technique="Lean 4 proofs (gap/fetch/timestamp glue) + model/implementation differential check + file read-back oracle",
    ref="DESIGN.md section 5 C20"),
